@@ -10,23 +10,56 @@
     A probe result is reported as successful ([KProbeApply t true _ _]) only
     when the target answered the probe with a 2xx status within the probe
     timeout (health_check.go:76-109; tools/c01.py compares every applied verdict
-    with the scripted answer).  Restarts (balancers restored from the state
-    file, made healthy without a probe) are outside the acceptor. *)
+    with the scripted answer).
+
+    Restarts are inside the acceptor: a service restored from the state file
+    ([KRestored sv act roll], Router.RestoreLastSavedState) brings balancers
+    whose targets were made healthy without a probe ("presumed healthy until
+    their first probe").  That is the one licence besides a succeeded deploy
+    wait, and the first theorem says so with an explicit second disjunct; the
+    restore rule and what it can never touch (balancers created by commands,
+    deploy waits, slot updates) are the theorems of props/C01restore.v.
+    [names act roll lb]: [act = Some lb \/ roll = Some lb]. *)
 From KP Require Import model.Base model.Trace model.M5lb proofs.M5lbFacts proofs.M5lbHist proofs.M5lbC01 proofs.M5lbC09
-  corr.C01corr corr.C09corr proofs.M5lbMon.
+  corr.C01corr corr.C09corr proofs.M5lbMon proofs.M5lbRestore.
 Local Open Scope nat_scope.
 
 (** If a client request is forwarded to target [t] (KClaim), and [t] was created
     with the targets [ts] of balancer [lb] (KLbNew), then that creation came
-    first, EVERY target of [ts] has had a successful probe result applied
-    before, and the deploy's wait on [lb] had ended successfully before. *)
+    first, and
+    EITHER every target of [ts] has had a successful probe result applied
+    before, and the deploy's wait on [lb] had ended successfully before,
+    OR [lb] was put into service by an earlier [KRestored] event (a restart) —
+    and then [lb] was created by an actor that is not a command, every target
+    of [ts] was made healthy by the restore (adding->healthy without a probe)
+    before that event, its rotation at that event was [ts], and no deploy ever
+    waits on [lb] or gives it a slot (so the second case never concerns a
+    balancer of a deploy: [c01r_cmd_balancer_never_restored]). *)
 Theorem c01_forward_after_all_probes : forall tr s i t r jn lb ts,
   run step init tr = Some s -> at_ tr i (KClaim t r) -> at_ tr jn (KLbNew lb ts) -> In t ts ->
   jn < i /\
+  (((forall t', In t' ts -> exists j prev new, j < i /\ at_ tr j (KProbeApply t' true prev new)) /\
+    (exists j, j < i /\ at_ tr j (KDeployWaited lb true)))
+   \/
+   (exists j sv act roll, jn < j /\ j < i /\ at_ tr j (KRestored sv act roll) /\ names act roll lb /\
+      (forall e, nth_error tr jn = Some e -> cmd_of (e_by e) = None) /\
+      (forall t', In t' ts -> exists j', j' < j /\ at_ tr j' (KStateSet t' TAdding THealthy)) /\
+      last_rot (firstn j tr) lb = ts /\
+      (forall k v, ~ at_ tr k (KDeployWaited lb v)) /\
+      (forall k sv' sl rep, ~ at_ tr k (KSlot sv' sl lb rep)))).
+Proof. exact forward_after_all_probes_or_restored. Qed.
+Print Assumptions c01_forward_after_all_probes.
+
+(** For a balancer created by a command (a deploy) the restore disjunct is impossible: the
+    original statement holds unchanged. *)
+Theorem c01_forward_after_all_probes_deploy : forall tr s i t r jn tm c lb ts,
+  run step init tr = Some s -> at_ tr i (KClaim t r) ->
+  nth_error tr jn = Some (mkEv tm (ACmd c) (KLbNew lb ts)) -> In t ts ->
+  jn < i /\
   (forall t', In t' ts -> exists j prev new, j < i /\ at_ tr j (KProbeApply t' true prev new)) /\
   (exists j, j < i /\ at_ tr j (KDeployWaited lb true)).
-Proof. exact forward_after_all_probes. Qed.
-Print Assumptions c01_forward_after_all_probes.
+Proof. exact forward_after_all_probes_deploy. Qed.
+Print Assumptions c01_forward_after_all_probes_deploy.
 
 (** If the wait of a deploy fails ([KDeployWaited lb false] anywhere in the
     trace), then nowhere in the trace — before or after — is [lb] put into a
